@@ -112,7 +112,8 @@ def run(ctx):
     ctx.extra["max_files_recorded"] = max(len(e["value"]) for e in recorded)
     ctx.exhaustive = True
     ctx.assumptions += ["bounded model: 0..3 files exhaustively (see rule); larger archives only by seeded sampling",
-                        "names are taken from the lossless Shift-JIS domain; the codec (encoding_rs) is trusted",
+                        "every compared parse is preceded, on the same thread, by failing parses of truncated copies of the same image (a parse result must depend on the image alone)",
+                        "names are taken from the lossless Shift-JIS domain; the codec (encoding_rs) is trusted; names include 63/64/65 and 127/128/129-byte ones with a double-byte character across offsets 64 and 128",
                         "placement and padding of names, and trailing padding of the file, are not demanded of the builder "
                         "(byte differences from CanonPack are counted in informational_mismatches only)",
                         "a wrong magic / oversized fields are C05, not exercised here"]
